@@ -1,4 +1,6 @@
 import ColoVerif.Proofs.SchedProofs
+import ColoVerif.Gen.InitTable
+import ColoVerif.Proofs.InitOrderProofs
 /-
 C08 — placement is deterministic and independent of thread scheduling (the protocol part).
 
@@ -128,5 +130,160 @@ theorem lb_steps_schedule_independent {V : Type} [Inhabited V] (f : Step → Loc
           · rw [if_neg ht] at hl; cases hl
       subst hτ1
       simpa [canonIter] using ih _ _ h
+
+/-! ## Definite initialisation of scalar members (static table + straight-line order model)
+
+`Gen.InitTable.table` is regenerated on every run from the clang AST of all translation units of
+src/place_global, src/place_detailed and src/coloquinte.cpp (`tools/gen/InitTable.py`): every scalar data member
+of every class defined there (and of `Circuit`), every constructor and member function as a list of events about
+the members of the object it runs on, and every place that creates an object of a class some constructor of
+which leaves a member unset, together with what happens to that object afterwards (`lifecycles`, e.g.
+`GlobalPlacer pl(circuit, params); pl.run(); pl.exportPlacement(circuit);` in `GlobalPlacer::place`, where `run`
+calls `runInitialLB`, assigns `penalty_` / `approximationDistance_` / `penaltyCutoffDistance_`, and only then
+reaches `runLB`, `computeIterationPerCellPenalty` and the H5 log that read them).
+`Model/InitOrder.lean` walks the events keeping the set of members written on every path (`alt`: intersection;
+`opaque` loops: reads checked, writes dropped; `ret`/`stop`).  Not path-sensitive; values are not modelled. -/
+section InitTable
+open ColoVerif.InitOrder ColoVerif.Gen.InitTable
+
+/-- The generated table is well-formed: ids in range, every class with a member that some constructor leaves
+unset has one lifecycle per construction site found in the analysed files, every lifecycle starts with the
+construction. -/
+theorem init_table_wellformed : tableWf table = true := by
+  decide +kernel
+
+/-- The column `ctorInit` of the table is what the walk computes from the constructors' event lists: a member
+is marked constructor-initialised iff the class has a constructor and every constructor (other than copy / move)
+writes it on every path before returning, without reading any member of the object too early. -/
+theorem ctor_verdicts_recomputed :
+    ∀ c ∈ table.classes, ∀ v ∈ c.members, v.ctorInit = ctorVerdict table c.ctors v.id := by
+  have h : table.classes.all (classVerdictsOk table) = true := by decide +kernel
+  intro c hc v hv
+  have h1 := (List.all_eq_true.mp h) c hc
+  have h2 := (List.all_eq_true.mp h1) v hv
+  exact eq_of_beq h2
+
+/-- **Every listed scalar member is written before it is read.**  For every class of the table and every scalar
+member `v` of it: either every constructor initialises `v` (`ctorVerdict`, recomputed from the constructors'
+events), or the class is `weak` and then every place that creates an object of it is a listed lifecycle
+(`init_table_wellformed`) and in every lifecycle the walk - construction first, then the statements that touch
+the object in source order, member functions inlined, `if` as meet, loop bodies as `opaque` - finds no read of a
+member that is not written on every path before it (no early read, no recursion, no unknown function). -/
+theorem members_initialised_before_read :
+    (∀ c ∈ table.classes, ∀ v ∈ c.members,
+        ctorVerdict table c.ctors v.id = true ∨
+        (weak c = true ∧ (table.lifecycles.filter (fun l => l.cls == c.name)).length = c.sites)) ∧
+    (∀ l ∈ table.lifecycles, (walk table l.events).bad = [] ∧ (walk table l.events).stuck = false) := by
+  have hok : table.lifecycles.all (lifecycleOk table) = true := by decide +kernel
+  have hwf : table.classes.all (fun c => !weak c || (table.lifecycles.filter (fun l => l.cls == c.name)).length == c.sites) = true := by
+    decide +kernel
+  refine ⟨?_, ?_⟩
+  · intro c hc v hv
+    have hv' := ctor_verdicts_recomputed c hc v hv
+    cases hci : v.ctorInit with
+    | true => left; rw [← hv', hci]
+    | false =>
+      right
+      have hw : weak c = true := by
+        simp only [weak, List.any_eq_true]
+        exact ⟨v, hv, by simp [hci]⟩
+      have h1 := (List.all_eq_true.mp hwf) c hc
+      rw [hw] at h1
+      exact ⟨hw, by simpa using h1⟩
+  · intro l hl
+    have h1 := (List.all_eq_true.mp hok) l hl
+    simp only [lifecycleOk, clean, Bool.and_eq_true, List.isEmpty_iff, Bool.not_eq_true'] at h1
+    exact h1
+
+/-- non-vacuity: the table lists `GlobalPlacer` with the members that its constructor leaves unset, and the
+lifecycle in `GlobalPlacer::place`. -/
+example : (table.classes.any (fun c => c.name == "GlobalPlacer" && weak c) &&
+           table.lifecycles.any (fun l => l.cls == "GlobalPlacer" && l.function == "GlobalPlacer::place")) = true := by
+  decide +kernel
+
+/-! ### negative witnesses: the walk is not trivially satisfied
+
+A hand-written table of the shape of seeded change C08-m2: member 0 (`approximationDistance_`) is left unset by
+the constructor (function 0), `run` (1) calls `runInitialLB` (2) first and assigns the member afterwards;
+in `m2Bad` `runInitialLB` reads it, in `m2Good` only `runLB` (3, called after the assignment, inside the loop) does. -/
+def m2Members : List MemberRow := [⟨"GlobalPlacer", "approximationDistance_", "float", .floating, "", 0⟩,
+                                   ⟨"GlobalPlacer", "step_", "int", .integer, "", 0⟩]
+def m2Classes : List ClassRow := [⟨"GlobalPlacer", "", 0, [⟨0, false, "", ""⟩, ⟨1, false, "", ""⟩], [0], 0, 1⟩]
+def m2Life : List Lifecycle := [⟨"GlobalPlacer", "GlobalPlacer::place", "", 0, "pl", .localVar, [.call 0, .call 1]⟩]
+def m2Fns (initialLB : List Ev) : List Fn :=
+  [⟨"GlobalPlacer::GlobalPlacer", "", 0, []⟩,
+   ⟨"GlobalPlacer::run", "", 0, [.call 2, .write 0, .write 1, .read 1, .opaque [.read 1, .call 3, .read 0, .write 0]]⟩,
+   ⟨"GlobalPlacer::runInitialLB", "", 0, initialLB⟩,
+   ⟨"GlobalPlacer::runLB", "", 0, [.read 0]⟩]
+def m2Good : Table := ⟨m2Members, m2Fns [.write 1, .read 1, .opaque [.read 1]], m2Classes, m2Life⟩
+def m2Bad : Table := ⟨m2Members, m2Fns [.read 0, .write 1, .read 1, .opaque [.read 1]], m2Classes, m2Life⟩
+
+theorem walk_accepts_write_then_read : tableOk m2Good = true := by decide +kernel
+
+/-- the C08-m2 shape is rejected, and the walk names the member -/
+theorem walk_rejects_read_before_write :
+    tableOk m2Bad = false ∧ m2Bad.lifecycles.map (earlyReads m2Bad) = [["GlobalPlacer::approximationDistance_"]] := by
+  decide +kernel
+
+/-- a write under a condition or inside a loop does not count (`alt` with an empty branch, `opaque`), a write in
+both branches does; a write after an early `return` does not count for the caller; recursion is refused. -/
+theorem walk_conservative_cases :
+    (run [] 100 [.alt [.write 0] [], .read 0] start).bad = [0] ∧
+    (run [] 100 [.opaque [.write 0], .read 0] start).bad = [0] ∧
+    (run [] 100 [.alt [.write 0] [.write 0, .write 1], .read 0] start).bad = [] ∧
+    (run [] 100 [.alt [.write 0] [.stop], .read 0] start).bad = [] ∧
+    (run [⟨"f", "", 0, [.alt [.ret] [], .write 0]⟩] 100 [.call 0, .read 0] start).bad = [0] ∧
+    (run [⟨"f", "", 0, [.write 0, .alt [.ret] [], .write 1]⟩] 100 [.call 0, .read 0, .read 1] start).bad = [1] ∧
+    (run [⟨"f", "", 0, [.call 0]⟩] 100 [.call 0] start).stuck = true := by
+  decide +kernel
+
+/-! ### what the walk means: executions
+
+`Proofs/InitOrderProofs.lean` gives the events a trace semantics (`Exec`: any branch at every `alt`, any number of
+possibly interrupted runs of every `opaque` block, calls expanded) and proves the walk sound for it
+(`exec_sound`, by induction over executions, for every function table).  Instantiated with the generated table: -/
+
+/-- **In every execution of every lifecycle, every read of a scalar member is preceded by a write of it.** -/
+theorem no_read_before_write_in_any_execution :
+    ∀ l ∈ table.lifecycles, ∀ tr o, Exec table.fns l.events tr o → good [] tr := by
+  intro l hl
+  have h := (members_initialised_before_read.2 l hl)
+  exact walk_sound table l.events (by simp [clean, h.1, h.2])
+
+/-- A member marked `ctorInit` is written in every execution of every constructor of its class that returns, and
+the constructor reads no member before writing it. -/
+theorem ctor_initialised_in_every_execution :
+    ∀ c ∈ table.classes, ∀ v ∈ c.members, v.ctorInit = true → ∀ f ∈ c.ctors,
+      ∀ tr, Exec table.fns [.call f] tr .norm → v.id ∈ after [] tr ∧ good [] tr := by
+  intro c hc v hv hci f hf
+  have h1 := ctor_verdicts_recomputed c hc v hv
+  rw [hci] at h1
+  have h2 : c.ctors.all (fun f => definitelyWrites table f v.id) = true := by
+    have := h1.symm
+    simp only [ctorVerdict, Bool.and_eq_true] at this
+    exact this.2
+  exact definitelyWrites_sound table f v.id ((List.all_eq_true.mp h2) f hf)
+
+/-- non-vacuity of the semantics: the accepted hand-written table has an execution (constructor, `run` with
+`runInitialLB` inlined, loop not entered), and in the rejected one the same path reads member 0 first. -/
+example : Exec m2Good.fns [.call 0, .call 1] [.w 1, .r 1, .w 0, .w 1, .r 1] .norm :=
+  .callDone (o1 := .norm) (t1 := []) (t2 := [.w 1, .r 1, .w 0, .w 1, .r 1]) rfl .nil (by decide)
+    (.callDone (o1 := .norm) (t1 := [.w 1, .r 1, .w 0, .w 1, .r 1]) (t2 := []) rfl
+      (.callDone (o1 := .norm) (t1 := [.w 1, .r 1]) (t2 := [.w 0, .w 1, .r 1]) rfl
+        (.write (.read (.opaqueDone .nil))) (by decide)
+        (.write (.write (.read (.opaqueDone .nil)))))
+      (by decide) .nil)
+
+example : ∃ tr o, Exec m2Bad.fns [.call 0, .call 1] tr o ∧ ¬ good [] tr :=
+  ⟨[.r 0, .w 1, .r 1, .w 0, .w 1, .r 1], .norm,
+   .callDone (o1 := .norm) (t1 := []) (t2 := [.r 0, .w 1, .r 1, .w 0, .w 1, .r 1]) rfl .nil (by decide)
+    (.callDone (o1 := .norm) (t1 := [.r 0, .w 1, .r 1, .w 0, .w 1, .r 1]) (t2 := []) rfl
+      (.callDone (o1 := .norm) (t1 := [.r 0, .w 1, .r 1]) (t2 := [.w 0, .w 1, .r 1]) rfl
+        (.read (.write (.read (.opaqueDone .nil)))) (by decide)
+        (.write (.write (.read (.opaqueDone .nil)))))
+      (by decide) .nil),
+   by simp [good]⟩
+
+end InitTable
 
 end ColoVerif.C08
